@@ -27,10 +27,19 @@
 // without an explicit scheme (Host header + path, "//host/path", "://host/path";
 // marker "none", which fasthttp treats as http) must stay off TLS connections
 // and must be refused by a HostClient{IsTLS: true}.
+//
+// A connection is not classified by its first bytes alone: on a connection that
+// starts with a TLS handshake record every later client byte must keep TLS record
+// framing (content type 0x14-0x17, version 0x03xx, sane length). A tap below the
+// crypto/tls server checks that per record; bytes that break the framing are kept
+// and, if they read as an HTTP request, logged as a request sent in clear text
+// after a successful handshake. WriteTimeout/ReadTimeout > 0 are part of the
+// configuration space (they select the eager-handshake dial path).
 package c21
 
 import (
 	"bufio"
+	"bytes"
 	"crypto/ecdsa"
 	"crypto/elliptic"
 	"crypto/rand"
@@ -79,6 +88,84 @@ type prefixConn struct {
 
 func (p *prefixConn) Read(b []byte) (int, error) { return p.r.Read(b) }
 
+// recordTap watches the raw client->peer byte stream of a connection that began with a TLS record
+// and checks the record framing of everything that follows.
+type recordTap struct {
+	r       io.Reader
+	hdr     [5]byte
+	hn      int
+	remain  int
+	records int
+	bad     bool
+	badBuf  []byte // the stream from the first byte that is not inside a well-formed record
+}
+
+func (t *recordTap) Read(p []byte) (int, error) {
+	n, err := t.r.Read(p)
+	t.feed(p[:n])
+	return n, err
+}
+
+func (t *recordTap) feed(b []byte) {
+	for len(b) > 0 {
+		switch {
+		case t.bad:
+			if len(t.badBuf) < 8192 {
+				t.badBuf = append(t.badBuf, b...)
+			}
+			return
+		case t.remain > 0:
+			k := t.remain
+			if k > len(b) {
+				k = len(b)
+			}
+			t.remain -= k
+			b = b[k:]
+		default:
+			t.hdr[t.hn] = b[0]
+			t.hn++
+			b = b[1:]
+			if t.hn == 5 {
+				t.hn = 0
+				ln := int(t.hdr[3])<<8 | int(t.hdr[4])
+				if t.hdr[0] < 0x14 || t.hdr[0] > 0x17 || t.hdr[1] != 0x03 || t.hdr[2] > 0x04 || ln > 16384+2048 {
+					t.bad = true
+					t.badBuf = append(t.badBuf, t.hdr[:]...)
+					continue
+				}
+				t.records++
+				t.remain = ln
+			}
+		}
+	}
+}
+
+func printable(b []byte, max int) string {
+	if len(b) > max {
+		b = b[:max]
+	}
+	return strconv.QuoteToASCII(string(b))
+}
+
+// markersOf reads id, hop and the scheme/host markers out of a request target.
+func markersOf(h *reqHead) (rl reqLog, seg2 string) {
+	rl = reqLog{Method: h.Method, Target: h.Target, Host: h.get("Host"), Hop: -1}
+	path := h.Target
+	if i := strings.IndexAny(path, "?#"); i >= 0 {
+		path = path[:i]
+	}
+	seg := strings.Split(path, "/")
+	if len(seg) == 5 && seg[1] == "c21" {
+		if j := strings.LastIndexByte(seg[2], '.'); j > 0 {
+			rl.ID = seg[2][:j]
+			rl.Hop, _ = strconv.Atoi(seg[2][j+1:])
+		}
+		rl.WantScheme, rl.WantHost = seg[3], seg[4]
+		seg2 = seg[2]
+	}
+	return rl, seg2
+}
+
 // ---------------------------------------------------------------------------
 // fake network
 
@@ -102,6 +189,9 @@ type connLog struct {
 	HandshakeErr string   `json:"handshake_err,omitempty"`
 	Junk         string   `json:"unparseable,omitempty"`
 	Reqs         []reqLog `json:"requests"`
+	Records      int      `json:"tls_records_from_client,omitempty"`
+	ClearAfter   string   `json:"bytes_outside_tls_records,omitempty"` // raw client bytes that broke the record framing
+	ClearReqs    []reqLog `json:"requests_in_clear_on_tls_conn,omitempty"`
 }
 
 type chainHop struct {
@@ -152,7 +242,18 @@ func (n *tnet) serve(cl *connLog, s net.Conn) {
 	var rd *bufio.Reader
 	var w io.Writer
 	if len(first) >= 2 && first[0] == 0x16 && first[1] == 0x03 {
-		tc := tls.Server(&prefixConn{Conn: s, r: br}, n.srvCfg)
+		tap := &recordTap{r: br}
+		defer func() {
+			cl.Records = tap.records
+			if tap.bad {
+				cl.ClearAfter = printable(tap.badBuf, 160)
+				if h, err := readHead(bufio.NewReader(bytes.NewReader(tap.badBuf))); err == nil {
+					rl, _ := markersOf(h)
+					cl.ClearReqs = append(cl.ClearReqs, rl)
+				}
+			}
+		}()
+		tc := tls.Server(&prefixConn{Conn: s, r: tap}, n.srvCfg)
 		if err := tc.Handshake(); err != nil {
 			cl.HandshakeErr = err.Error()
 			return
@@ -175,24 +276,14 @@ func (n *tnet) serve(cl *connLog, s net.Conn) {
 		if _, err := readBody(rd, h); err != nil {
 			return
 		}
-		rl := reqLog{Method: h.Method, Target: h.Target, Host: h.get("Host"), Hop: -1}
-		path := h.Target
-		if i := strings.IndexAny(path, "?#"); i >= 0 {
-			path = path[:i]
-		}
-		seg := strings.Split(path, "/")
+		rl, seg2 := markersOf(h)
 		resp := "HTTP/1.1 200 OK\r\nContent-Length: 2\r\n\r\nok"
 		closeAfter := false
-		if len(seg) == 5 && seg[1] == "c21" {
-			if j := strings.LastIndexByte(seg[2], '.'); j > 0 {
-				rl.ID = seg[2][:j]
-				rl.Hop, _ = strconv.Atoi(seg[2][j+1:])
-			}
-			rl.WantScheme, rl.WantHost = seg[3], seg[4]
+		if seg2 != "" {
 			n.mu.Lock()
 			chain := n.chains[rl.ID]
-			n.seenN[seg[2]]++
-			rl.Attempt = n.seenN[seg[2]]
+			n.seenN[seg2]++
+			rl.Attempt = n.seenN[seg2]
 			plan := n.ops[rl.ID]
 			n.mu.Unlock()
 			if plan != nil && rl.Hop == 0 {
@@ -297,8 +388,10 @@ type hcSpec struct {
 }
 
 type tcase struct {
-	Mode string   `json:"mode"`           // client, hostclient, lbclient
-	CB   string   `json:"retry_callback"` // RetryIf, RetryIfErr, RetryIfErrUpstream
+	Mode string   `json:"mode"`              // client, hostclient, lbclient
+	CB   string   `json:"retry_callback"`    // RetryIf, RetryIfErr, RetryIfErrUpstream
+	WT   bool     `json:"write_timeout_set"` // WriteTimeout > 0: TLS handshake done eagerly at dial time (tlsClientHandshake)
+	RT   bool     `json:"read_timeout_set"`
 	HCs  []hcSpec `json:"host_clients,omitempty"`
 	G    int      `json:"goroutines"`
 	Ops  []*op    `json:"ops"`
@@ -364,6 +457,8 @@ func genCase(r rng, idx int) *tcase {
 	c := &tcase{Mode: pick(r, []string{"client", "client", "hostclient", "hostclient", "lbclient"})}
 	c.G = pick(r, []int{1, 1, 2, 3})
 	c.CB = pick(r, []string{"RetryIf", "RetryIfErr", "RetryIfErrUpstream"})
+	c.WT = r.Intn(2) == 0
+	c.RT = r.Intn(3) == 0
 	nops := 4 + r.Intn(10)
 	hosts := hostForms
 	switch c.Mode {
@@ -494,19 +589,27 @@ func runCase(c *tcase, srvCfg *tls.Config) (out outcome) {
 	}
 	cliCfg := &tls.Config{InsecureSkipVerify: true}
 	const idle = 50 * time.Millisecond
+	var wt, rt time.Duration // large: nothing is ever waited for, they only select code paths
+	if c.WT {
+		wt = 10 * time.Minute
+	}
+	if c.RT {
+		rt = 10 * time.Minute
+	}
 	var d doer
 	var closers []func()
 	switch c.Mode {
 	case "client":
 		cl := &fasthttp.Client{Dial: n.dial, TLSConfig: cliCfg, MaxIdleConnDuration: idle, ReadBufferSize: 2048, WriteBufferSize: 2048,
-			RetryIf: retryIf, RetryIfErr: retryIfErr, RetryIfErrUpstream: retryUp}
+			RetryIf: retryIf, RetryIfErr: retryIfErr, RetryIfErrUpstream: retryUp, WriteTimeout: wt, ReadTimeout: rt}
 		d = cl
 		closers = append(closers, cl.CloseIdleConnections)
 	default:
 		var hcs []*fasthttp.HostClient
 		for _, s := range c.HCs {
 			hc := &fasthttp.HostClient{Addr: s.Addr, IsTLS: s.IsTLS, Dial: n.dial, TLSConfig: cliCfg, MaxIdleConnDuration: idle,
-				ReadBufferSize: 2048, WriteBufferSize: 2048, RetryIf: retryIf, RetryIfErr: retryIfErr, RetryIfErrUpstream: retryUp}
+				ReadBufferSize: 2048, WriteBufferSize: 2048, RetryIf: retryIf, RetryIfErr: retryIfErr, RetryIfErrUpstream: retryUp,
+				WriteTimeout: wt, ReadTimeout: rt}
 			hcs = append(hcs, hc)
 			closers = append(closers, hc.CloseIdleConnections)
 		}
@@ -620,6 +723,22 @@ func judge(c *tcase, out outcome, ev func(string, int)) (vs []violation) {
 		}
 		if cl.HandshakeErr != "" {
 			ev("tls_handshake_failures", 1)
+		}
+		ev("tls_records_checked", cl.Records)
+		if cl.TLS && c.WT {
+			ev("tls_sessions_with_eager_handshake", 1)
+		}
+		if cl.ClearAfter != "" {
+			phase := "before-handshake-completed"
+			if cl.TLS {
+				phase = "after-tls-handshake"
+			}
+			if len(cl.ClearReqs) == 0 {
+				vs = append(vs, violation{"cleartext-bytes-on-tls-connection-" + phase + ":" + c.Mode, fmt.Sprintf("connection dialled to %q started with a TLS handshake record (%s), then carried client bytes outside any TLS record: %s", cl.Dial, cl.First, cl.ClearAfter)})
+			}
+			for _, rq := range cl.ClearReqs {
+				vs = append(vs, violation{"request-in-cleartext-" + phase + ":" + c.Mode, fmt.Sprintf("connection dialled to %q started with a TLS handshake record (%s, %d well-formed records), then carried request %s.%d (%s %s, URL scheme %s) in clear text: %s", cl.Dial, cl.First, cl.Records, rq.ID, rq.Hop, rq.Method, rq.Target, rq.WantScheme, cl.ClearAfter)})
+			}
 		}
 		if cl.Junk != "" {
 			ev("unparseable_heads", 1)
@@ -780,7 +899,7 @@ func judge(c *tcase, out outcome, ev func(string, int)) (vs []violation) {
 
 func classOf(c *tcase) string {
 	var b strings.Builder
-	fmt.Fprintf(&b, "%s|g=%d|%v", c.Mode, c.G, c.HCs)
+	fmt.Fprintf(&b, "%s|g=%d|%v|wt=%v rt=%v", c.Mode, c.G, c.HCs, c.WT, c.RT)
 	for i, o := range c.Ops {
 		if i == 6 {
 			break
@@ -856,9 +975,9 @@ func TestC21(t *testing.T) {
 	}
 	srvCfg := &tls.Config{Certificates: []tls.Certificate{cert}, MinVersion: tls.VersionTLS12, SessionTicketsDisabled: true}
 
-	r.Rule("case = one Client, one HostClient{IsTLS random} or one LBClient over 2-3 HostClients with both IsTLS values, and 4-13 calls spread over 1-3 goroutines; each call picks a scheme (http/https) and a host form (a.test, b.test, a.test:9000, b.test:9000 - the explicit port is dialled for both schemes), an API (Do, DoTimeout, DoDeadline, DoRedirects, Get, Post) and, for the redirect APIs, a chain of 0-4 hops (301/302/303/307/308; absolute, scheme-relative or path Location) whose scheme and host vary per hop; direct calls additionally draw a request shape without scheme (Host+path, //host/path, ://host/path), a peer fault (first 1-2 transmissions dropped without an answer, connection closed after the answer = dead pooled connection) and an edit made by the case's retry callback (RetryIf, RetryIfErr or RetryIfErrUpstream) on the live request between attempts (SetScheme https/http, accessors + relative SetRequestURI, accessors only - Request.RequestURI() alone already drops the scheme); distinct = (mode, goroutines, HostClient specs, first six calls as api+host+scheme sequence); non-trivial = (Client) one host name is used with both schemes, (HostClient/LBClient) some URL has the scheme the HostClient is not configured for")
+	r.Rule("case = one Client, one HostClient{IsTLS random} or one LBClient over 2-3 HostClients with both IsTLS values, WriteTimeout/ReadTimeout set (large) or not - WriteTimeout > 0 selects the eager TLS handshake at dial time -, and 4-13 calls spread over 1-3 goroutines; each call picks a scheme (http/https) and a host form (a.test, b.test, a.test:9000, b.test:9000 - the explicit port is dialled for both schemes), an API (Do, DoTimeout, DoDeadline, DoRedirects, Get, Post) and, for the redirect APIs, a chain of 0-4 hops (301/302/303/307/308; absolute, scheme-relative or path Location) whose scheme and host vary per hop; direct calls additionally draw a request shape without scheme (Host+path, //host/path, ://host/path), a peer fault (first 1-2 transmissions dropped without an answer, connection closed after the answer = dead pooled connection) and an edit made by the case's retry callback (RetryIf, RetryIfErr or RetryIfErrUpstream) on the live request between attempts (SetScheme https/http, accessors + relative SetRequestURI, accessors only - Request.RequestURI() alone already drops the scheme); distinct = (mode, goroutines, HostClient specs, first six calls as api+host+scheme sequence); non-trivial = (Client) one host name is used with both schemes, (HostClient/LBClient) some URL has the scheme the HostClient is not configured for")
 	r.Assume("the scheme of a request is the scheme of the URL the caller or the redirecting peer wrote; it travels in the request path and is read back by the raw peer")
-	r.Assume("TLS is recognised on the raw connection by the record header 0x16 0x03 of the first bytes; the handshake is then completed by crypto/tls with a self-signed certificate (client: InsecureSkipVerify)")
+	r.Assume("TLS is recognised on the raw connection by the record header 0x16 0x03 of the first bytes and then checked per record (type 0x14-0x17, version 0x03 0x00-0x04, length <= 18432) for every later client byte; the handshake is completed by crypto/tls with a self-signed certificate (client: InsecureSkipVerify)")
 	r.Assume("a request without an explicit scheme (Host header + path, //host/path, ://host/path; marker 'none') is an http request, as URI.Scheme() says: it must stay off TLS connections and a HostClient{IsTLS:true} must refuse it")
 	r.Assume("the retry callback edits the live request between attempts and rewrites the path marker to the scheme it leaves behind, so every transmission is judged against the URL it was made for; when the first transmission never reached a peer (dead pooled connection) the executing HostClient's kind is taken from the setup, and under LBClient such calls are not judged for acceptance")
 	n := r.N(4_000, 250_000)
@@ -907,6 +1026,8 @@ func TestC21(t *testing.T) {
 		r.Require("hostclient_refused_redirect_to_other_scheme", n/50)
 		r.Require("lbclient_refused_by_mismatching_hostclient", n/50)
 		r.Require("lbclient_delivered", n/50)
+		r.Require("tls_records_checked", 4*n)
+		r.Require("tls_sessions_with_eager_handshake", n/4)
 		r.Require("retry_callback_invocations", n/4)
 		r.Require("retry_scheme_mismatch_refused", n/20)
 		r.Require("retry_after_callback_edit_transmitted", n/20)
